@@ -575,11 +575,11 @@ func c06R2OCIStorage(c *Ctx) {
 func c06R2File(c *Ctx) {
 	const R = "C06.R2.refuse-before-mutate"
 	isFs := func(n string) bool { return fsMutators[n] && n != "(*os.File).Close" }
-	for _, name := range []string{"Store.push", "Store.Add"} {
-		fn := c06Fn(c, R, "content/file", name)
-		if fn == nil {
-			continue
-		}
+	writers := c05ExistsWriters(c, false)
+	if len(writers) < 2 {
+		c.LostAnchor(R, "functions of ~/content/file that claim a name (Push side and Add)")
+	}
+	for _, fn := range writers {
 		tn := FnName(fn)
 		effects := c06FsEffectCalls(fn, isFs)
 		// also calls that record digests (Add computes and records without fs mutation for plain files)
@@ -633,8 +633,7 @@ func c06R2File(c *Ctx) {
 		}
 		c.Check(R, tn+"|effects-under-name-lock", fn.Pos(), ok3, ifelse(ok3, "the per-name lock is held in W mode from the duplicate check through every content effect", bad3))
 	}
-	c05ExistsAfterSuccess(c, R, "(*~/content/file.Store).Add")
-	c05ExistsAfterSuccess(c, R, "(*~/content/file.Store).push")
+	c05ExistsAfterSuccess(c, R, c05ExistsWriters(c, false))
 }
 
 // ---------------------------------------------------------------- R2: Tag
